@@ -186,7 +186,6 @@ Definition spec_tag (k : N) : N :=
 
 Definition uri_xsd : str :=
   [104;116;116;112;58;47;47;119;119;119;46;119;51;46;111;114;103;47;50;48;48;49;47;88;77;76;83;99;104;101;109;97]%N.
-Definition s_one : str := [49]%N.
 
 Definition is_xsi (a : iattr) : bool := uri_is (fst (fst a)) uri_xsi.
 
@@ -363,9 +362,11 @@ Fixpoint ref_composite (ms : list edecl) (nodes : list inode) (acc : list (str *
 
 (* SOAP 1.1 / 1.2: Envelope, optional Header, Body (same namespace); document/
    literal wrapped: the Body holds the wrapper element named by the output
-   message part; the outputs are the element members of the wrapper's type: none ->
-   None, one -> its value (a list when it repeats, None when absent), several ->
-   a composite object *)
+   message part; the outputs are the members of the wrapper's type: none -> None,
+   one -> its value (a list when it repeats, None when absent), several -> a
+   composite object holding the element members.  Attributes declared by the
+   wrapper's type are data too and count as outputs, so a wrapper type with
+   attributes always yields the composite object. *)
 Definition ref_reply (wq : qn) (wt : ctype) (x : inode) : option pyval :=
   match x with
   | IN u nm _ _ kids =>
@@ -376,19 +377,23 @@ Definition ref_reply (wq : qn) (wt : ctype) (x : inode) : option pyval :=
           if negb (all_space (i_text w)) then None else
           match members (flat_elems S wt) with
           | None => None
-          | Some [] => Some PNone
-          | Some [d] =>
-              if e_multi d then
-                match omap (ref_top d) (i_kids w) with Some l => Some (PList l) | None => None end
-              else match i_kids w with
-                   | [] => Some PNone
-                   | [n] => ref_top d n
-                   | _ => None
-                   end
           | Some ms =>
-              match ref_composite ms (i_kids w) [] with
-              | Some fields => Some (PObj None fields)
-              | None => None
+              match flat_attrs S wt, ms with
+              | [], [] => Some PNone
+              | [], [d] =>
+                  if e_multi d then
+                    match omap (ref_top d) (i_kids w) with Some l => Some (PList l) | None => None end
+                  else match i_kids w with
+                       | [] => Some PNone
+                       | [n] => ref_top d n
+                       | _ => None
+                       end
+              | _ :: _, [] => None
+              | _, _ =>
+                  match ref_composite ms (i_kids w) [] with
+                  | Some fields => Some (PObj None fields)
+                  | None => None
+                  end
               end
           end
       | _ => None
@@ -400,9 +405,8 @@ Definition ref_reply (wq : qn) (wt : ctype) (x : inode) : option pyval :=
 (* ------------------------------------------------------------------ *)
 (* 1 = a nil occurrence comes first in a repeating member of an object
    2 = whitespace-only character data in a childless element of complex type
-   5 = (debatable) an entirely empty element of complex type
-   6 = (debatable) an empty element of a built-in type without xsi:nil
-   7 = (debatable) a wrapper type with attributes and at most one element member *)
+   5 = an entirely empty element of complex type        [C02:empty-complex-element-as-empty-string]
+   6 = an empty element of a built-in type without xsi:nil [C02:empty-nillable-leaf-as-none] *)
 Definition no_real_attrs (ats : list iattr) : bool := forallb is_xsi ats.
 
 Fixpoint seen_key (key : str) (l : list inode) : bool :=
@@ -443,10 +447,6 @@ Fixpoint flags_node (dt : rtype) (nillable : bool) (x : inode) {struct x} : list
   end.
 
 Definition flags_reply (wt : ctype) (x : inode) : list N :=
-  (match flat_attrs S wt with
-   | [] => []
-   | _ => if Nat.leb (length (flat_elems S wt)) 1 then [7%N] else []
-   end) ++
   match x with
   | IN u nm _ _ kids =>
       match find (fun k => str_eqb (i_nm k) s_Body && ostr_eqb (i_u k) u) kids with
@@ -491,7 +491,7 @@ Definition model_reply_with (sq pr n1 : bool) (c : case) : dres pyval :=
   | Some wt => reply (c_schema c) (c_names c) (c_uris c) (c_kinds c) (c_globals c) sq pr n1 wt (c_raw c)
   | None => DOther
   end.
-Definition model_reply (c : case) : dres pyval := model_reply_with false true false c.
+Definition model_reply (c : case) : dres pyval := model_reply_with false true true c.
 
 Definition spec_reply (c : case) : option pyval :=
   match case_wt c with
@@ -530,12 +530,14 @@ Definition case_flags (c : case) : list N :=
   | Some wt => flags_reply (c_schema c) (c_names c) (c_uris c) (c_kinds c) wt (c_info c)
   | None => []
   end.
-(* 8 = reading xsi:nil="1" as nil changes the outcome;
-   3 = promotePrefixes changes the outcome; 4 = qualifying an unprefixed xsi:type
-   value with the element's namespace changes the outcome *)
+(* 3 = promotePrefixes changes the outcome; 4 = qualifying an unprefixed xsi:type
+   value with the element's namespace changes the outcome;
+   8 = the implementation departs from the model exactly as if xsi:nil="1" were
+       not recognised as nil (the repaired defect C02:xsi-nil-spelled-1 is back) *)
 Definition case_flags_all (c : case) : list N :=
   case_flags c ++
-  (if dres_eqb (model_reply c) (model_reply_with false false false c) then [] else [3%N]) ++
-  (if dres_eqb (model_reply c) (model_reply_with true true false c) then [] else [4%N]) ++
-  (if dres_eqb (model_reply c) (model_reply_with false true true c) then [] else [8%N]).
+  (if dres_eqb (model_reply c) (model_reply_with false false true c) then [] else [3%N]) ++
+  (if dres_eqb (model_reply c) (model_reply_with true true true c) then [] else [4%N]) ++
+  (if negb (dres_eqb (model_reply c) (c_impl c)) && dres_eqb (model_reply_with false true false c) (c_impl c)
+   then [8%N] else []).
 Definition has_flag (k : N) (c : case) : bool := existsb (N.eqb k) (case_flags_all c).
